@@ -268,17 +268,10 @@ func (l *DList[T]) Last() T {
 // Each iterates over the elements of the linked list and invokes
 // the callback function having as parameter the nodes' value.
 func (l *DList[T]) Each(fn func(value T)) {
-	head := &l.DoubleNode
-	node := l.DoubleNode
-	for {
-		fn(l.Value)
-		if head.next == nil {
-			break
-		}
-		l.DoubleNode = *head.next
+	// Walk with a local pointer: the list itself is not touched, whatever the callback does.
+	for node := &l.DoubleNode; node != nil; node = node.next {
+		fn(node.Value)
 	}
-	// Move the pointer back to the first node.
-	l.DoubleNode = node
 }
 
 // Val retrieves the node value.
